@@ -27,11 +27,12 @@ type c02cfg struct {
 	offer       bool // the in-flight request offers a protocol upgrade the target does not take
 	prior       bool // the old targets were drained before (pause cut off by its deadline, then resume); the replaced containers are stopped the moment the deploy returns
 	conflict    bool // the redeploy also claims a host owned by another service and is rejected after its targets became healthy: the old set keeps serving
+	subTLS      bool // the service lives on a sub-path of a host whose root-path service has TLS on; the clients use HTTPS
 	lateProbe   bool // probe timeout > probe interval; the new targets' first probe hangs, later ones succeed; clients arrive on a time grid
 }
 
 func (c c02cfg) String() string {
-	return fmt.Sprintf("old=%d new=%d clients=%dx%d inflight=%v redeploys=%d changeHosts=%v other=%v slow=%v offer=%v lateProbe=%v conflict=%v prior=%v", c.nOld, c.nNew, c.clients, c.perClient, c.inflight, c.redeploys, c.changeHosts, c.other, c.slow, c.offer, c.lateProbe, c.conflict, c.prior)
+	return fmt.Sprintf("old=%d new=%d clients=%dx%d inflight=%v redeploys=%d changeHosts=%v other=%v slow=%v offer=%v lateProbe=%v conflict=%v prior=%v", c.nOld, c.nNew, c.clients, c.perClient, c.inflight, c.redeploys, c.changeHosts, c.other, c.slow, c.offer, c.lateProbe, c.conflict, c.prior) + map[bool]string{true: " subTLS=true"}[c.subTLS]
 }
 
 func tnames(prefix string, n int) []string {
@@ -65,7 +66,21 @@ func c02Scenario(c c02cfg) *Scenario {
 			gens = append(gens, ns)
 		}
 		hosts := []string{"a.example.com"}
-		if r := w.Deploy(deployArgs("s1", olds, hosts, nil)); r.Err != nil {
+		var paths []string
+		reqPath, reqTLS := "/", false
+		if c.subTLS {
+			w.AddTarget("root:80")
+			fx := fixtures()
+			ra := deployArgs("root", []string{"root:80"}, hosts, nil)
+			ra.ServiceOptions.TLSEnabled = true
+			ra.ServiceOptions.TLSCertificatePath, ra.ServiceOptions.TLSPrivateKeyPath = fx+"/cert.pem", fx+"/key.pem"
+			if r := w.Deploy(ra); r.Err != nil {
+				w.Note("setup deploy failed: %v", r.Err)
+				return
+			}
+			paths, reqPath, reqTLS = []string{"/api"}, "/api/x", true
+		}
+		if r := w.Deploy(deployArgs("s1", olds, hosts, paths)); r.Err != nil {
 			w.Note("setup deploy failed: %v", r.Err)
 			return
 		}
@@ -82,7 +97,7 @@ func c02Scenario(c c02cfg) *Scenario {
 			wg.Add(1)
 			vsched.GoTagged("client", func() {
 				defer wg.Done()
-				w.Do(ReqSpec{ID: "prior", Host: "a.example.com", Path: "/", Plan: "hang"})
+				w.Do(ReqSpec{ID: "prior", Host: "a.example.com", Path: reqPath, TLS: reqTLS, Plan: "hang"})
 			})
 			time.Sleep(100 * time.Millisecond)
 			w.Pause("s1", vD, vMaxPause)
@@ -93,7 +108,7 @@ func c02Scenario(c c02cfg) *Scenario {
 			wg.Add(1)
 			vsched.GoTagged("client", func() {
 				defer wg.Done()
-				spec := ReqSpec{ID: "inflight", Host: "a.example.com", Path: "/", Plan: "delay=1s"}
+				spec := ReqSpec{ID: "inflight", Host: "a.example.com", Path: reqPath, TLS: reqTLS, Plan: "delay=1s"}
 				if c.offer {
 					spec.Header = [][2]string{{"Connection", "Upgrade, HTTP2-Settings"}, {"Upgrade", "h2c"}, {"HTTP2-Settings", "AAMAAABkAARAAAAAAAIAAAAA"}}
 				}
@@ -107,7 +122,7 @@ func c02Scenario(c c02cfg) *Scenario {
 				id, plan := fmt.Sprintf("inflight%d", i), d
 				vsched.GoTagged("client", func() {
 					defer wg.Done()
-					w.Do(ReqSpec{ID: id, Host: "a.example.com", Path: "/", Plan: plan})
+					w.Do(ReqSpec{ID: id, Host: "a.example.com", Path: reqPath, TLS: reqTLS, Plan: plan})
 				})
 			}
 			time.Sleep(100 * time.Millisecond)
@@ -117,7 +132,7 @@ func c02Scenario(c c02cfg) *Scenario {
 		vsched.GoTagged("cmd", func() {
 			defer wg.Done()
 			for g := 0; g < c.redeploys; g++ {
-				a := deployArgs("s1", gens[g], hosts, nil)
+				a := deployArgs("s1", gens[g], hosts, paths)
 				if c.lateProbe {
 					// as with the defaults (5s/1s) the probe timeout exceeds the interval
 					a.TargetOptions.HealthCheckConfig.Timeout = 2*vI + vI/2
@@ -138,7 +153,7 @@ func c02Scenario(c c02cfg) *Scenario {
 						}
 					}
 				}
-				w.Do(ReqSpec{ID: fmt.Sprintf("after%d", g), Host: "a.example.com", Path: "/"})
+				w.Do(ReqSpec{ID: fmt.Sprintf("after%d", g), Host: "a.example.com", Path: reqPath, TLS: reqTLS})
 			}
 		})
 		for k := 0; k < c.clients; k++ {
@@ -147,7 +162,7 @@ func c02Scenario(c c02cfg) *Scenario {
 			vsched.GoTagged("client", func() {
 				defer wg.Done()
 				for j := 0; j < c.perClient; j++ {
-					spec := ReqSpec{ID: fmt.Sprintf("c%d.%d", k, j), Host: "a.example.com", Path: "/"}
+					spec := ReqSpec{ID: fmt.Sprintf("c%d.%d", k, j), Host: "a.example.com", Path: reqPath, TLS: reqTLS}
 					if c.lateProbe {
 						// arrival grid: around each probe tick and each possible probe timeout of the deploy
 						time.Sleep(time.Duration(k)*vI + vI*6/10)
@@ -164,7 +179,7 @@ func c02Scenario(c c02cfg) *Scenario {
 		wg.Wait()
 		w.S.SetWindow(false)
 		time.Sleep(2 * vI)
-		w.Do(ReqSpec{ID: "final", Host: "a.example.com", Path: "/"})
+		w.Do(ReqSpec{ID: "final", Host: "a.example.com", Path: reqPath, TLS: reqTLS})
 		if !c.conflict && c.redeploys > 0 {
 			// the replaced containers are stopped once the deploys have returned (what kamal does next):
 			// nothing may still be routed to them
@@ -179,8 +194,8 @@ func c02Scenario(c c02cfg) *Scenario {
 				}
 			}
 			time.Sleep(time.Millisecond)
-			w.Do(ReqSpec{ID: "final-after-old-stopped", Host: "a.example.com", Path: "/"})
-			w.Do(ReqSpec{ID: "final-after-old-stopped-2", Host: "a.example.com", Path: "/other"})
+			w.Do(ReqSpec{ID: "final-after-old-stopped", Host: "a.example.com", Path: reqPath, TLS: reqTLS})
+			w.Do(ReqSpec{ID: "final-after-old-stopped-2", Host: "a.example.com", Path: reqPath + "other", TLS: reqTLS})
 		}
 	}
 	cfgConflict := c.conflict
@@ -270,6 +285,7 @@ func c02Configs(tier string) []c02cfg {
 		cfgs = append(cfgs, c02cfg{nOld: 1, nNew: 1, clients: 4, perClient: 1, redeploys: 1, lateProbe: true})
 		cfgs = append(cfgs, c02cfg{nOld: 1, nNew: 1, clients: 2, perClient: 1, redeploys: 1, inflight: true, other: true, conflict: true})
 		cfgs = append(cfgs, c02cfg{nOld: 1, nNew: 1, clients: 0, perClient: 0, redeploys: 1, inflight: true, prior: true})
+		cfgs = append(cfgs, c02cfg{nOld: 1, nNew: 1, clients: 2, perClient: 1, redeploys: 1, subTLS: true})
 		return cfgs
 	}
 	for _, sh := range [][2]int{{1, 1}, {2, 1}, {1, 2}, {2, 2}} {
@@ -295,6 +311,11 @@ func c02Configs(tier string) []c02cfg {
 	}
 	for _, sh := range [][2]int{{1, 1}, {2, 1}} {
 		cfgs = append(cfgs, c02cfg{nOld: sh[0], nNew: sh[1], clients: 0, perClient: 0, redeploys: 1, inflight: true, prior: true})
+	}
+	for _, sh := range [][2]int{{1, 1}, {2, 1}} {
+		for _, inf := range []bool{false, true} {
+			cfgs = append(cfgs, c02cfg{nOld: sh[0], nNew: sh[1], clients: 2, perClient: 1, redeploys: 1, inflight: inf, subTLS: true})
+		}
 	}
 	for _, ch := range []bool{false, true} {
 		for _, ot := range []bool{false, true} {
